@@ -5,7 +5,8 @@ cd "$(dirname "$0")"
 export CARGO_NET_OFFLINE=true
 mkdir -p .build evidence replays coq/Generated
 python3 -m vlib.setup_facts
-( cd coq && coq_makefile -f _CoqProject -o Makefile >/dev/null && timeout 3000 make -j16 ) 2>&1 | tail -5
+python3 -c 'from vlib import common; common.gen_coqproject()'
+( cd coq && coq_makefile -f _CoqProject -o Makefile >/dev/null && timeout 3000 make -k -j16 || true ) 2>&1 | tail -5
 cp -f /repo/Cargo.lock harness/Cargo.lock
 ( cd harness && timeout 3000 cargo build --offline ) 2>&1 | tail -3
 echo "setup done"
